@@ -71,6 +71,19 @@ void do_call(const JV& c) {
     else if (ep == "offset_tree") { ClipperOffset co(2.0, 0.25); co.AddPaths(S, (JoinType)a[0].i(), (EndType)a[1].i()); PolyTree64 tr; co.Execute(d, tr); sink = tr.Count(); }
     else if (ep == "offsetD") { sink = total(InflatePaths(toD(S), d, (JoinType)a[0].i(), (EndType)a[1].i(), 2.0, 2, 0.0)); }
     else { CPaths64 cs = CreateCPathsFromPathsT(S); CPaths64 r = InflatePaths64(cs, d, (uint8_t)a[0].i(), (uint8_t)a[1].i(), 2.0, 0.0, false); if (r) DisposeArray64(r); DisposeArray64(cs); }
+  } else if (ep == "offseq") {   // Execute into a polytree, destroy the tree, Execute into paths on the same object
+    static const double ds[] = {0, 3.0, -4.5, 40.0}; double d = ds[a[2].i()];
+    ClipperOffset co; co.AddPaths(S, (JoinType)a[0].i(), (EndType)a[1].i());
+    { PolyTree64 tr; co.Execute(d, tr); sink = tr.Count(); }
+    Paths64 sol; co.Execute(d, sol); sink = total(sol);
+  } else if (ep == "reuse") {    // shared container with open (S) and closed (C) paths, in either order / combined with AddOpenSubject
+    ReuseableDataContainer64 rd; Clipper64 cl; int ord = (int)a[2].i();
+    if (ord == 0) { rd.AddPaths(S, PathType::Subject, true); rd.AddPaths(C, PathType::Clip, false); }
+    else if (ord == 1) { rd.AddPaths(C, PathType::Clip, false); rd.AddPaths(S, PathType::Subject, true); }
+    else { cl.AddOpenSubject(S); rd.AddPaths(C, PathType::Clip, false); }
+    cl.AddReuseableData(rd); Clipper64 other; other.AddReuseableData(rd);
+    Paths64 sol, op; cl.Execute((ClipType)a[0].i(), (FillRule)a[1].i(), sol, op); sink = total(sol) + total(op);
+    PolyTree64 tr; other.Execute((ClipType)a[0].i(), (FillRule)a[1].i(), tr, op); sink = tr.Count();
   } else if (ep == "rectclip" || ep == "rectcliplines" || ep == "rectclipD" || ep == "exp_rectclip64" || ep == "exp_rectcliplines64") {
     int rk = (int)a[0].i(); Rect64 r = rk == 1 ? Rect64(t + 2, t + 2, t + 7, t + 7) : rk == 2 ? Rect64(t - 100, t - 100, t + 100, t + 100) : Rect64(t + 5, t + 5, t + 5, t + 5);
     if (ep == "rectclip") sink = total(RectClip(r, S));
